@@ -616,6 +616,17 @@ class Inliner:
                     self.cls_stack.pop()
 
         visit(self.tree.body, None)
+        # ... and a private method whose every self. / cls. call was replaced (no attribute access of that name is left in this module, and no other
+        # module uses the name - `keep` holds the attribute names other modules use)
+        for (cname, mname), (fn, _b) in list(self.methods.items()):
+            if mname.startswith("_") and mname in self.inlined and mname not in self.keep:
+                left = [x for x in ast.walk(self.tree) if isinstance(x, ast.Attribute) and x.attr == mname] + \
+                       [x for x in ast.walk(self.tree) if isinstance(x, ast.Constant) and x.value == mname]
+                if not left:
+                    for c in ast.walk(self.tree):
+                        if isinstance(c, ast.ClassDef) and fn in c.body:
+                            c.body = [st for st in c.body if st is not fn] or [ast.Pass()]
+                            self.removed.append(mname)
         if self.inject and self.inlined:
             imports: List[ast.stmt] = []
             for nm, b in sorted(self.inject.items()):
